@@ -188,3 +188,161 @@ func VH_C16_IndependentClients() {
 	}
 	vhReach("clients-done")
 }
+
+// vhHipLow: a hash-input provider that only looks at the low 8 bits of the
+// key: keys that differ above them collide on EVERY digest level of the
+// default (pooled, CircleHash/BLAKE3) digester.
+func vhHipLow(v Value, _ []byte) ([]byte, error) {
+	switch k := v.(type) {
+	case vBKey:
+		return []byte{byte(k.val)}, nil
+	case vU64: // the stored form of the key (existing keys are re-hashed from storage)
+		return []byte{byte(k)}, nil
+	}
+	return nil, fmt.Errorf("unexpected key %T", v)
+}
+
+// Pool discipline of the pooled default digesters across map operations that
+// hit REAL digest collisions (two different keys, equal digests on all
+// levels): after every operation each digester taken from the process-wide
+// pool has been returned exactly once, so two consecutive Gets never hand out
+// one object (which two independent goroutines would otherwise share), and a
+// later independent map sees no trace of the earlier keys.
+//
+//vh:prop C16 C04 C12
+//vh:param ops 3 4
+func VH_C16_DigesterPoolDiscipline() {
+	vhSetThreshold(256)
+	storage := vhNewBasicStorage()
+	addr := vhAddr(1)
+	m, err := NewMap(storage, addr, NewDefaultDigesterBuilder(), vTypeInfo{id: 42})
+	vhAssert(err == nil, "new map")
+	if err != nil {
+		return
+	}
+	// keys 1, 257, 513 collide pairwise on every level; 2 does not
+	keys := []uint64{1, 257, 2, 513}
+	present := map[uint64]uint64{}
+	checkPool := func(what string) {
+		d1 := getBasicDigester()
+		d2 := getBasicDigester()
+		vhAssert(d1 != d2, what+": a pooled digester was returned twice")
+		putDigester(d2)
+		putDigester(d1)
+	}
+	nops := vhParam("ops", 3)
+	for op := 0; op < nops; op++ {
+		k := keys[vhChoose("key", len(keys))]
+		key := vBKey{val: k}
+		switch vhChoose("op", 4) {
+		case 0:
+			val := vhRange("val", 0, 70000)
+			_, err := m.Set(vhCompareBK, vhHipLow, key, vU64(val))
+			vhAssert(err == nil, "set")
+			present[k] = val
+		case 1:
+			v, err := m.Get(vhCompareBK, vhHipLow, key)
+			if want, ok := present[k]; ok {
+				vhAssert(err == nil, "get present")
+				if err == nil {
+					vhAssert(uint64(v.(vU64)) == want, "get present: value")
+				}
+			} else {
+				vhAssert(vhIsKeyNotFound(err), "get absent")
+			}
+		case 2:
+			_, _, err := m.Remove(vhCompareBK, vhHipLow, key)
+			if _, ok := present[k]; ok {
+				vhAssert(err == nil, "remove present")
+				delete(present, k)
+			} else {
+				vhAssert(vhIsKeyNotFound(err), "remove absent")
+			}
+		case 3:
+			has, err := m.Has(vhCompareBK, vhHipLow, key)
+			_, ok := present[k]
+			vhAssert(err == nil && has == ok, "has")
+		}
+		checkPool("after operation")
+	}
+	vhAssert(m.Count() == uint64(len(present)), "count")
+	verr := VerifyMap(m, addr, vTypeInfo{id: 42}, vhTic, vhHipLow, true)
+	vhAssert(verr == nil, "map valid")
+	checkPool("after verify")
+	vhReach("digester-pool-done")
+}
+
+// Encoding is a function of the slab content only: with Go map iteration
+// explored in EVERY order (maporder any), encoding the same slab twice gives
+// identical bytes. The slab holds several inlined children whose type
+// information repeats (two distinct types, each used more than once, plus a
+// type used once), so the shared type-information table and the references
+// into it are exercised; children are arrays, maps, or compact (composite)
+// maps.
+//
+//vh:prop C04
+//vh:init cbor
+//vh:maporder any
+//vh:param pairs 2 3
+func VH_C04_EncodingOrderIndependent() {
+	vhSetThreshold(1024)
+	storage := vhNewByteStorage()
+	addr := vhAddr(1)
+	kind := vhChoose("kind", 3)
+	ntypes := vhParam("pairs", 2)
+	parent, _ := NewArray(storage, addr, vTypeInfo{id: 42})
+	mkChild := func(ty uint64, val uint64) Value {
+		switch kind {
+		case 0:
+			a, _ := NewArray(storage, addr, vTypeInfo{id: ty})
+			_ = a.Append(vU64(val))
+			return a
+		case 1:
+			m, _ := NewMap(storage, addr, NewDefaultDigesterBuilder(), vTypeInfo{id: ty})
+			_, _ = m.Set(vhCompareBK, vhHipB, vBKey{val: 100}, vU64(val))
+			return m
+		}
+		m, _ := NewMap(storage, addr, NewDefaultDigesterBuilder(), vCompositeTypeInfo{id: ty})
+		_, _ = m.Set(vhCompareBK, vhHipB, vBKey{val: 100}, vU64(val))
+		_, _ = m.Set(vhCompareBK, vhHipB, vBKey{val: 101}, vU64(val+1))
+		return m
+	}
+	// types 50, 51, (52) twice each, interleaved, then a type used once
+	for rep := 0; rep < 2; rep++ {
+		for t := 0; t < ntypes; t++ {
+			_ = parent.Append(mkChild(uint64(50+t), uint64(10*rep+t)))
+		}
+	}
+	_ = parent.Append(mkChild(60, 7))
+	root := parent.root
+	vhAssert(root.IsData(), "single slab")
+	b1, err1 := EncodeSlab(root, storage.cborEncMode)
+	b2, err2 := EncodeSlab(root, storage.cborEncMode)
+	vhAssert(err1 == nil && err2 == nil, "encode")
+	if err1 != nil || err2 != nil {
+		return
+	}
+	vhAssert(len(b1) == len(b2), "same length under every map iteration order")
+	if len(b1) == len(b2) {
+		same := true
+		for i := range b1 {
+			same = vhAll(same, b1[i] == b2[i])
+		}
+		vhAssert(same, "same bytes under every map iteration order")
+	}
+	// and the register decodes back to the same children types
+	s2, derr := DecodeSlab(root.SlabID(), b1, storage.cborDecMode, vhDecodeStorableB, vhDecodeTypeInfo)
+	vhAssert(derr == nil, "decode")
+	if derr == nil {
+		b3, err3 := EncodeSlab(s2, storage.cborEncMode)
+		vhAssert(err3 == nil && len(b3) == len(b1), "re-encode length")
+		if err3 == nil && len(b3) == len(b1) {
+			same := true
+			for i := range b1 {
+				same = vhAll(same, b1[i] == b3[i])
+			}
+			vhAssert(same, "re-encode of the decoded slab is identical")
+		}
+	}
+	vhReach("order-independent-done")
+}
